@@ -48,11 +48,19 @@ func run(c *core.Ctx) error {
 		c.Inconclusive("token model does not match the real comparators: %v", err)
 		return nil
 	}
-	if err := groupBy(c); err != nil {
-		return err
+	only := os.Getenv("C10_ONLY") // development aid: "gb" | "join"
+	if only == "" || only == "gb" {
+		if err := groupBy(c); err != nil {
+			return err
+		}
 	}
-	if err := join(c); err != nil {
-		return err
+	if only == "" || only == "join" {
+		if err := join(c); err != nil {
+			return err
+		}
+	}
+	if only != "" {
+		c.Inconclusive("partial run (C10_ONLY=%s)", only)
 	}
 	return nil
 }
@@ -458,7 +466,7 @@ func crashSig(msg string) string {
 }
 
 func groupBy(c *core.Ctx) error {
-	cfg, simN := "GroupBy.quick.cfg", 400
+	cfg, simN := "GroupBy.quick.cfg", 1200
 	if !c.Quick() {
 		cfg, simN = "GroupBy.thorough.cfg", 6000
 	}
@@ -521,7 +529,7 @@ func groupBy(c *core.Ctx) error {
 	}
 	// sparse pass: one aggregate at a time over groups whose arguments are all absent / all null
 	rng := rand.New(rand.NewSource(c.Seed + 10))
-	nSparse := 60
+	nSparse := 25
 	if !c.Quick() {
 		nSparse = 400
 	}
